@@ -226,7 +226,9 @@ func runBatch(self string, p *props.Prop, tier string, seed uint64, from, to int
 			sp := strings.IndexByte(rest, ' ')
 			idx, _ := strconv.Atoi(rest[:sp])
 			var r props.CaseResult
-			if jerr := json.Unmarshal([]byte(rest[sp+1:]), &r); jerr == nil {
+			dec := json.NewDecoder(strings.NewReader(rest[sp+1:]))
+			dec.UseNumber() // keep 64-bit seeds inside samples exact
+			if jerr := dec.Decode(&r); jerr == nil {
 				bo.results[idx] = r
 			}
 			if idx == lastB {
